@@ -153,14 +153,18 @@ def run_fresh(filenames, outdir, cmdline=(), env=None, cwd=None, timeout=300):
 
 
 def read_tree(d, skip_ext=(".log",)):
+    """File name -> bytes.  The output directory is part of the command line and is legitimately
+    written into some files (setup.py lists source paths): it is replaced by <OUTDIR> so trees
+    produced into different scratch directories are comparable."""
     out = {}
+    dn = os.path.abspath(d).encode()
     for root, _dirs, files in os.walk(d):
         for f in sorted(files):
             if f.endswith(skip_ext):
                 continue
             p = os.path.join(root, f)
             with open(p, "rb") as fh:
-                out[os.path.relpath(p, d)] = fh.read()
+                out[os.path.relpath(p, d)] = fh.read().replace(dn, b"<OUTDIR>").replace(d.encode(), b"<OUTDIR>")
     return out
 
 
